@@ -280,3 +280,22 @@ def normalise(e):
             s = Group(s)
         return rebuild(e, [s, kids[1]])
     return rebuild(e, kids) if kids else e
+
+
+def rename_rules(g, mapping):
+    """consistently rename rules (memo keys, generated method names, leader selection depend on names)"""
+    from .lang import Include, children, rebuild
+
+    def rn(e):
+        if isinstance(e, Call):
+            return Call(mapping.get(e.name, e.name))
+        if isinstance(e, Include):
+            return Include(mapping.get(e.name, e.name))
+        kids = children(e)
+        return rebuild(e, [rn(k) for k in kids]) if kids else e
+    return Grammar([Rule(mapping.get(r.name, r.name), rn(r.body), r.decorators, r.params, r.kwparams,
+                         mapping.get(r.base, r.base) if r.base else None) for r in g.rules],
+                   dict(g.directives), tuple(g.keywords))
+
+
+SIMILAR_NAMES = {'start': 'rule', 'x': 'rule1', 'Y': 'Rule', 'z': 'rule_', 'w': 'rulez'}
